@@ -62,8 +62,31 @@ BoundaryList == <<
    \* metadata of maximal length
    [B(1, <<"sum">>) EXCEPT !.meta = [i \in 1..65535 |-> i % 251]]
 >>
+
+\* Configurations for the adaptive-substitution attacks of C03 (spec/stark/StarkProto.tla): linear DEEP
+\* batching (one coefficient per column), few queries, >= 2 main / auxiliary / composition columns,
+\* folding >= 4 and a remainder with spare degree, so that every substitute of attack.rs exists.
+Aux2 == <<[width |-> 2, rands |-> 1, src |-> <<0, 1>>]>>
+Aux3 == <<[width |-> 3, rands |-> 2, src |-> <<1, 0, 1>>]>>
+AT(shapes, aux) == [Empty EXCEPT !.width = Len(shapes), !.shapes = shapes, !.init = [j \in 1..Len(shapes) |-> j + 1],
+                                !.asserts = A0, !.aux = aux, !.log_len = 6, !.blowup = 8, !.fold = 4, !.rem = 15,
+                                !.queries = 3, !.dbatch = 0]
+AttackList == <<
+   AT(<<"sum", "mul2", "cube">>, Aux2),
+   [AT(<<"sum", "mul2", "cube">>, Aux2) EXCEPT !.ext = 2],
+   [AT(<<"sum", "mul2", "cube">>, Aux2) EXCEPT !.ext = 3, !.queries = 2, !.fold = 8, !.cbatch = 1],
+   [AT(<<"sum", "mul2", "cube">>, Aux2) EXCEPT !.field = "f128", !.queries = 5, !.rem = 7, !.log_len = 7],
+   [AT(<<"sum", "mul2", "cube">>, Aux2) EXCEPT !.field = "f128", !.ext = 2, !.fold = 16, !.rem = 31, !.log_len = 8, !.cbatch = 2],
+   [AT(<<"d5", "sum">>, Aux3) EXCEPT !.hash = "rp64_256", !.queries = 1],
+   [AT(<<"d5", "sum">>, Aux3) EXCEPT !.hash = "rp64_256", !.ext = 2, !.queries = 4, !.blowup = 16, !.rem = 15],
+   [AT(<<"cube", "mul2", "sum", "id">>, Aux2) EXCEPT !.log_len = 5, !.rem = 7, !.queries = 2, !.grind = 4],
+   [AT(<<"cube", "mul2", "sum", "id">>, Aux2) EXCEPT !.log_len = 9, !.fold = 4, !.rem = 31, !.queries = 6, !.ext = 2, !.exemptions = 2]
+>>
+AttackOk == \A i \in 1..Len(AttackList) : Supported(AttackList[i])
+EmitAttack == (phase = "field") => \A i \in 1..Len(AttackList) : PrintT(<<"ATTACK", ToJson(CaseOf(AttackList[i]))>>)
+
 BadBoundary == {i \in 1..Len(BoundaryList) : ~Supported(BoundaryList[i])}
-ShowBad == PrintT(<<"BAD", BadBoundary>>)
+ShowBad == (phase = "field") => PrintT(<<"BAD", BadBoundary>>)
 BNext == FALSE /\ UNCHANGED vars
 BSpec == Init /\ [][BNext]_vars
 =============================================================================
